@@ -1,6 +1,7 @@
 import F1Verif.Util
 import F1Verif.Model.Cli
 import F1Verif.Model.Distribution
+import F1Verif.Drive.Plan
 namespace F1.Drive
 open F1.Util F1.Parse F1.Plan F1.Cli
 
@@ -30,6 +31,13 @@ def cliOp (args impl : List String) : Option (String × String) := do
     maxDur := ← hb "dur", conc := ← it "conc", maxIt := ← nt "maxit", maxFail := ← nt "maxfail",
     maxFailRate := ← it "maxfailrate", ignDrop := get "igndrop" = some "1",
     scenarioKnown := get "scenario" ≠ some "0", wellFormed := (get "raw").isNone }
+  -- gaussian mode: oracle input (defaults: repeat 24 h, peak 14 h)
+  let cargs := if mode = "gaussian" then
+      match durFlag cargs.freq second, durFlag cargs.stddev dfltStddev with
+      | .ok f, .ok sd => { cargs with gaussDerivable :=
+          (gaussDerivable (24 * 3600 * second) f (14 * 3600 * second) sd (cargs.weights.getD [])).getD (impl.head? = some "accept") }
+      | _, _ => cargs
+    else cargs
   -- mode=file: the generator writes only valid files (validation is the `plan` op's business); the limits are the file's
   let r : Res Cli.Plan :=
     if isFile then
